@@ -34,6 +34,23 @@ def admissible (s : State) : List (List Nat) → Bool
 until the count is exhausted or the candidates run out. -/
 def takeThreads (s : State) (order : List Nat) : State := take s (order.take s.cnt)
 
+/-- the loop shared by `takeIdlePackages` and `takeIdleCores`: the candidate sets (idle packages /
+idle cores, restricted to online CPUs and possibly to the preferred priority class) in the order
+the sort produced; a set is taken iff it still fits into the remaining count; the loop stops once
+the count is exhausted (the `break` sits inside the `if`) -/
+def foldStage : List (List Nat) → State → State
+  | [], s => s
+  | c :: cs, s =>
+    if c.length ≤ s.cnt then
+      if (take s c).cnt = 0 then take s c else foldStage cs (take s c)
+    else foldStage cs s
+
+/-- `takeIdleThreads`' loop: every candidate CPU (the online CPUs still in `from`, in sorted order)
+is taken until the count is exhausted; `allocate()` runs it only while `cnt > 0` -/
+def threadStage : List Nat → State → State
+  | [], s => s
+  | x :: xs, s => if (take s [x]).cnt = 0 then take s [x] else threadStage xs (take s [x])
+
 /-- `takeAny` (no topology): the first `cnt` CPUs of `from.List()` if there are enough. -/
 def takeAny (s : State) : State :=
   if s.from_.length ≥ s.cnt then take s (s.from_.take s.cnt) else s
